@@ -417,7 +417,7 @@ func checkCSRF(c *km.Ctx, s *km.Sem, checkAuth *ssa.Function) {
 	}}
 	n := 0
 	for _, rc := range s.RetCases(checkAuth) {
-		if len(rc.Ret.Results) != 2 || !km.IsNilConst(rc.Ret.Results[1]) {
+		if len(rc.Results) != 2 || !km.IsNilConst(rc.Results[1]) {
 			continue // not a success return
 		}
 		n++
@@ -448,7 +448,7 @@ func checkKeymasterSigned(c *km.Ctx, s *km.Sem) {
 	// success returns: result 0 is not the empty-string constant
 	var succ []*ssa.Return
 	for _, rc := range s.RetCases(fn) {
-		if cs, ok := km.ConstString(rc.Ret.Results[0]); ok && cs == "" {
+		if cs, ok := km.ConstString(rc.Results[0]); ok && cs == "" {
 			continue
 		}
 		succ = append(succ, rc.Ret)
